@@ -179,7 +179,7 @@ class ColumnBackend(PolarsSchemaBackend):
         )
 
         try:
-            return coerce_fn(check_obj)
+            return coerce_fn(PolarsData(check_obj, schema.selector))
         except ParserError as exc:
             raise SchemaError(
                 schema=schema,
@@ -188,7 +188,9 @@ class ColumnBackend(PolarsSchemaBackend):
                     f"Error while coercing '{schema.selector}' to type "
                     f"{schema.dtype}: {exc}"
                 ),
+                failure_cases=exc.failure_cases,
                 check=f"coerce_dtype('{schema.dtype}')",
+                check_output=exc.parser_output,
                 reason_code=SchemaErrorReason.DATATYPE_COERCION,
             ) from exc
 
